@@ -556,3 +556,429 @@ Proof.
       [unfold m_command_override_step at 1; keys; reflexivity|].
     destruct (ak_address c), (ak_repeat c); reflexivity.
 Qed.
+
+(* ---- refs ---- *)
+
+Lemma m_ref_eq : forall h t ovm,
+  m_ref (h_name h) (head_keys "ref" h ++ [("target", MStr t); ("override", ovm)]) =
+  rbind (ov_result (m_object_override t ovm)) (fun o => ROk (ORef (h_cfg h) (h_name h) o)).
+Proof.
+  intros [[c|] [|] n] t ovm; unfold m_ref, head_keys; cbn [h_cfg h_doc h_name opt_key app mget]; keys;
+    cbn [as_string rbind foldM]; unfold m_ref_step; keys; cbn [as_string rbind];
+    destruct (m_object_override t ovm); reflexivity.
+Qed.
+
+(* ---- blocks: the nested fixes of m_object are foldM / mapR ---- *)
+
+Definition block_init : block_rec := {| bk_cfg := None; bk_offset := 0; bk_repeat := None; bk_objects := [] |}.
+
+Definition m_block_step (md : mdefaults) (kv : string * mvalue) (b : block_rec) : result block_rec :=
+  let (k, x) := kv in
+  if k =s "type" then ROk b
+  else if k =s "cfg" then
+    s <-- as_string x ;;
+    ROk {| bk_cfg := Some s; bk_offset := bk_offset b; bk_repeat := bk_repeat b; bk_objects := bk_objects b |}
+  else if k =s "description" then _s <-- as_string x ;; ROk b
+  else if k =s "address_offset" then
+    z <-- as_int x ;;
+    ROk {| bk_cfg := bk_cfg b; bk_offset := z; bk_repeat := bk_repeat b; bk_objects := bk_objects b |}
+  else if k =s "repeat" then
+    r <-- m_repeat x ;;
+    ROk {| bk_cfg := bk_cfg b; bk_offset := bk_offset b; bk_repeat := Some r; bk_objects := bk_objects b |}
+  else if k =s "objects" then
+    match x with
+    | MMap okvs =>
+        os <-- mapR (fun kv => m_object md (fst kv) (snd kv)) okvs ;;
+        ROk {| bk_cfg := bk_cfg b; bk_offset := bk_offset b; bk_repeat := bk_repeat b; bk_objects := os |}
+    | _ => RErr (type_err "map")
+    end
+  else RErr (mk_err "manifest_unexpected_key" [k]).
+
+Lemma m_object_block : forall md name kvs,
+  mget "type" kvs = Some (MStr "block") ->
+  m_object md name (MMap kvs) =
+  rbind (foldM (m_block_step md) kvs block_init)
+        (fun b => ROk (OBlock (bk_cfg b) name (bk_offset b) (bk_repeat b) (bk_objects b))).
+Proof.
+  intros md name kvs H. cbn [m_object]. rewrite H. cbn [as_string rbind]. keys.
+  match goal with |- rbind ?x _ = rbind ?y _ => assert (E : x = y) end; [|rewrite E; reflexivity].
+  unfold block_init. generalize {| bk_cfg := None; bk_offset := 0; bk_repeat := None; bk_objects := [] |}.
+  clear H. induction kvs as [|[k x] t IH]; intros b; [reflexivity|].
+  cbn [foldM]. lazy beta iota.
+  match goal with |- rbind ?x ?f = rbind ?y ?g => assert (E : x = y) end.
+  { unfold m_block_step.
+    destruct (k =s "type"); [reflexivity|].
+    destruct (k =s "cfg"); [reflexivity|].
+    destruct (k =s "description"); [reflexivity|].
+    destruct (k =s "address_offset"); [reflexivity|].
+    destruct (k =s "repeat"); [reflexivity|].
+    destruct (k =s "objects"); [|reflexivity].
+    destruct x; try reflexivity.
+    match goal with |- rbind ?x _ = rbind ?y _ => assert (E : x = y) end; [|rewrite E; reflexivity].
+    induction kvs as [|[n ov] t2 IH2]; [reflexivity|].
+    cbn [mapR fst snd]. rewrite <- IH2. reflexivity. }
+  rewrite E. destruct (m_block_step md (k, x) b) as [b'|e]; cbn [rbind]; [apply IH|reflexivity].
+Qed.
+
+Definition upd_bk (s : block_rec) (c : option string) (off : option Z) (rep : option repeat) : block_rec :=
+  {| bk_cfg := match c with Some x => Some x | None => bk_cfg s end; bk_offset := or_default off (bk_offset s);
+     bk_repeat := match rep with Some r => Some r | None => bk_repeat s end; bk_objects := bk_objects s |}.
+
+Ltac flat_bk := unfold upd_bk; cbn [rbind or_default bk_cfg bk_offset bk_repeat bk_objects].
+
+Lemma m_object_spec : forall toml g o,
+  object_ok o = true ->
+  class_of (m_object (defaults_of g) (h_name (ahead_of o)) (obj_to_m toml o)) = class_of (spec_object g o).
+Proof.
+  intros toml g. induction o as [h off rep order objs IH|h r|h c|h b|h ov _] using aobject_ind'; intros Hok;
+    cbn [obj_to_m ahead_of spec_object].
+  - cbn [object_ok] in Hok. apply andb_prop in Hok. destruct Hok as [Hok Hobjs].
+    apply andb_prop in Hok. destruct Hok as [Ho Hr].
+    rewrite m_object_block by apply mget_head_type.
+    rewrite foldM_app.
+    rewrite (foldM_head (m_block_step (defaults_of g)) "block" h (fun c s => upd_bk s c NN NN))
+      by (intros; reflexivity).
+    unfold block_init. flat_bk.
+    rewrite foldM_app, (seg_m (m_block_step (defaults_of g)) "address_offset" MInt
+                              (fun x s => upd_bk s NN x NN) in_i64);
+      [|intros a0 Ha0; unfold m_block_step; keys; rewrite (as_int_ok _ Ha0); reflexivity
+       |flat_bk; reflexivity|assumption].
+    flat_bk.
+    rewrite foldM_app, (seg_m (m_block_step (defaults_of g)) "repeat" m_of_repeat
+                              (fun x s => upd_bk s NN NN x) repeat_ok);
+      [|intros a0 Ha0; unfold m_block_step; keys; rewrite (m_repeat_ok _ Ha0); reflexivity
+       |flat_bk; reflexivity|assumption].
+    flat_bk.
+    destruct objs as [|o1 ot].
+    + cbn [foldM rbind mapR]. destruct (h_cfg h), rep; reflexivity.
+    + cbn [foldM]. unfold m_block_step at 1. keys. rewrite mapR_map. cbn [fst snd].
+      set (objs := o1 :: ot) in *.
+      assert (Hc : class_of (mapR (fun x => m_object (defaults_of g) (h_name (ahead_of x)) (obj_to_m toml x)) objs)
+                   = class_of (mapR (spec_object g) objs)).
+      { apply class_mapR. rewrite Forall_forall in *. intros x Hx. apply IH; [assumption|].
+        rewrite forallb_forall in Hobjs. apply Hobjs; assumption. }
+      destruct (mapR (fun x => m_object (defaults_of g) (h_name (ahead_of x)) (obj_to_m toml x)) objs) as [os|e];
+        destruct (mapR (spec_object g) objs) as [os'|e']; cbn in Hc; try discriminate.
+      * inversion Hc; subst. cbn [rbind foldM]. destruct (h_cfg h), rep; reflexivity.
+      * cbn [rbind class_of]. inversion Hc. reflexivity.
+  - cbn [m_object]. rewrite mget_head_type. cbn [as_string rbind]. keys.
+    apply class_rmap. apply (m_register_spec toml g h r Hok).
+  - cbn [m_object]. rewrite mget_head_type. cbn [as_string rbind]. keys.
+    apply class_rmap. apply (m_command_spec toml g h c Hok).
+  - cbn [m_object]. rewrite mget_head_type. cbn [as_string rbind]. keys.
+    apply class_rmap. apply (m_buffer_spec g h b Hok).
+  - cbn [m_object]. rewrite mget_head_type. cbn [as_string rbind]. keys.
+    rewrite m_ref_eq. apply class_rbind; [|reflexivity]. apply m_override_spec. exact Hok.
+Qed.
+
+(* ---- global config (manifest) ---- *)
+
+Lemma m_boundaries_ok : forall lf n,
+  match n with NwbArray l => forallb is_boundary_name l | _ => true end = true ->
+  m_boundaries lf (match n with NwbArray l => MArr (map MStr l) | NwbString s => MStr s end)
+  = ROk (match n with NwbArray l => l | NwbString s => lf s end).
+Proof.
+  intros lf [l|s] H; cbn [m_boundaries]; [|reflexivity].
+  rewrite <- mapR_mapM, mapR_map, (mapR_ok _ (fun s => s)).
+  - rewrite map_id. reflexivity.
+  - rewrite Forall_forall. intros s Hs. rewrite forallb_forall in H. cbn [as_string rbind]. rewrite (H s Hs). reflexivity.
+Qed.
+
+Lemma m_config_spec : forall lf c, config_ok c = true -> m_config lf (MMap (config_keys c)) = ROk (spec_config lf c).
+Proof.
+  intros lf c Hok. unfold m_config. cbn [as_map rbind]. unfold config_keys.
+  rewrite foldM_app, (seg_m (m_config_step lf) "default_register_access" m_of_access
+                            (fun x s => match x with Some a => set_g_dra a s | None => s end) always);
+    [|intros a0 _; unfold m_config_step; keys; rewrite m_access_ok; reflexivity|reflexivity|apply opt_ok_always].
+  cbn [rbind].
+  rewrite foldM_app, (seg_m (m_config_step lf) "default_field_access" m_of_access
+                            (fun x s => match x with Some a => set_g_dfa a s | None => s end) always);
+    [|intros a0 _; unfold m_config_step; keys; rewrite m_access_ok; reflexivity|reflexivity|apply opt_ok_always].
+  cbn [rbind].
+  rewrite foldM_app, (seg_m (m_config_step lf) "default_buffer_access" m_of_access
+                            (fun x s => match x with Some a => set_g_dba a s | None => s end) always);
+    [|intros a0 _; unfold m_config_step; keys; rewrite m_access_ok; reflexivity|reflexivity|apply opt_ok_always].
+  cbn [rbind].
+  rewrite foldM_app, (seg_m (m_config_step lf) "default_byte_order" m_of_byte_order
+                            (fun x s => match x with Some a => set_g_byo (Some a) s | None => s end) always);
+    [|intros a0 _; unfold m_config_step; keys; rewrite m_byte_order_ok; reflexivity|reflexivity|apply opt_ok_always].
+  cbn [rbind].
+  rewrite foldM_app, (seg_m (m_config_step lf) "default_bit_order" m_of_bit_order
+                            (fun x s => match x with Some a => set_g_bio a s | None => s end) always);
+    [|intros a0 _; unfold m_config_step; keys; rewrite m_bit_order_ok; reflexivity|reflexivity|apply opt_ok_always].
+  cbn [rbind].
+  rewrite foldM_app, (seg_m (m_config_step lf) "register_address_type" (fun i => MStr (show_integer i))
+                            (fun x s => match x with Some a => set_g_rat (Some a) s | None => s end) always);
+    [|intros a0 _; unfold m_config_step; keys; rewrite m_integer_ok; reflexivity|reflexivity|apply opt_ok_always].
+  cbn [rbind].
+  rewrite foldM_app, (seg_m (m_config_step lf) "command_address_type" (fun i => MStr (show_integer i))
+                            (fun x s => match x with Some a => set_g_cat (Some a) s | None => s end) always);
+    [|intros a0 _; unfold m_config_step; keys; rewrite m_integer_ok; reflexivity|reflexivity|apply opt_ok_always].
+  cbn [rbind].
+  rewrite foldM_app, (seg_m (m_config_step lf) "buffer_address_type" (fun i => MStr (show_integer i))
+                            (fun x s => match x with Some a => set_g_bat (Some a) s | None => s end) always);
+    [|intros a0 _; unfold m_config_step; keys; rewrite m_integer_ok; reflexivity|reflexivity|apply opt_ok_always].
+  cbn [rbind].
+  rewrite foldM_app, (seg_m (m_config_step lf) "name_word_boundaries"
+                            (fun n => match n with NwbArray l => MArr (map MStr l) | NwbString s => MStr s end)
+                            (fun x s => match x with
+                                        | Some n => set_g_nwb (match n with NwbArray l => l | NwbString s => lf s end) s
+                                        | None => s end)
+                            (fun n => match n with NwbArray l => forallb is_boundary_name l | _ => true end));
+    [|intros a0 Ha0; unfold m_config_step; keys; rewrite (m_boundaries_ok lf a0 Ha0); reflexivity|reflexivity
+     |unfold config_ok in Hok; destruct (ac_name_word_boundaries c) as [[l|s]|]; [exact Hok|reflexivity|reflexivity]].
+  cbn [rbind].
+  rewrite (seg_m (m_config_step lf) "defmt_feature" MStr
+                 (fun x s => match x with Some a => set_g_defmt (Some a) s | None => s end) always);
+    [|intros a0 _; unfold m_config_step; keys; reflexivity|reflexivity|apply opt_ok_always].
+  f_equal. unfold spec_config.
+  destruct c as [a1 a2 a3 a4 a5 a6 a7 a8 a9 a10].
+  cbn [ac_default_register_access ac_default_field_access ac_default_buffer_access ac_default_byte_order
+       ac_default_bit_order ac_register_address_type ac_command_address_type ac_buffer_address_type
+       ac_name_word_boundaries ac_defmt_feature].
+  destruct a1, a2, a3, a4, a5, a6, a7, a8, a9 as [[?|?]|], a10; reflexivity.
+Qed.
+
+Lemma config_keys_nil : forall lf c, config_keys c = [] -> spec_config lf c = default_config.
+Proof.
+  intros lf [a1 a2 a3 a4 a5 a6 a7 a8 a9 a10] H. unfold config_keys in H. cbn in H.
+  destruct a1, a2, a3, a4, a5, a6, a7, a8, a9, a10; cbn in H; try discriminate. reflexivity.
+Qed.
+
+Lemma objects_no_config : forall toml objs,
+  forallb (fun o => negb (h_name (ahead_of o) =s "config")) objs = true ->
+  mget "config" (map (named_to_m toml) objs) = None /\
+  filter (fun kv : string * mvalue => negb (fst kv =s "config")) (map (named_to_m toml) objs) = map (named_to_m toml) objs.
+Proof.
+  induction objs as [|o t IH]; intros H; [split; reflexivity|].
+  cbn in H. apply andb_prop in H. destruct H as [Ho Ht]. destruct (IH Ht) as [I1 I2].
+  cbn [map mget filter named_to_m fst]. apply negb_true_iff in Ho. rewrite Ho. cbn [negb].
+  rewrite I2. split; [exact I1|reflexivity].
+Qed.
+
+Theorem manifest_half : forall lf toml d,
+  adef_ok d = true ->
+  class_of (lower_manifest lf (to_manifest toml d)) = class_of (spec_device lf d).
+Proof.
+  intros lf toml d Hok. unfold adef_ok in Hok.
+  apply andb_prop in Hok. destruct Hok as [Hok Hnames]. apply andb_prop in Hok. destruct Hok as [Hcfg Hobjs].
+  destruct (objects_no_config toml (a_objects d) Hnames) as [N1 N2].
+  unfold lower_manifest, lower_manifest_gen, to_manifest, spec_device. cbn [as_map rbind].
+  assert (Hg : forall kvs,
+             kvs = match config_keys (a_config d) with [] => [] | ks => [("config", MMap ks)] end ->
+             match mget "config" (kvs ++ map (named_to_m toml) (a_objects d)) with
+             | Some c => m_config lf c | None => ROk default_config end = ROk (spec_config lf (a_config d))
+             /\ filter (fun kv : string * mvalue => negb (fst kv =s "config")) (kvs ++ map (named_to_m toml) (a_objects d))
+                = map (named_to_m toml) (a_objects d)).
+  { intros kvs ->. pose proof (m_config_spec lf (a_config d) Hcfg) as Hm.
+    destruct (config_keys (a_config d)) as [|k ks] eqn:E.
+    - cbn [app]. rewrite N1, N2. split; [|reflexivity]. rewrite (config_keys_nil lf _ E). reflexivity.
+    - cbn [app mget filter fst]. keys. cbn [negb]. rewrite N2. split; [exact Hm|reflexivity]. }
+  destruct (Hg _ eq_refl) as [G1 G2]. rewrite G1, G2. cbn [rbind].
+  apply class_rbind; [|reflexivity].
+  rewrite <- mapR_mapM, mapR_map. apply class_mapR.
+  rewrite Forall_forall. intros o Ho. cbn [named_to_m fst snd]. apply m_object_spec.
+  rewrite forallb_forall in Hobjs. apply Hobjs; assumption.
+Qed.
+
+(* ================================================================== the property theorems *)
+
+Lemma adef_ok_objects : forall d, adef_ok d = true -> forallb object_ok (a_objects d) = true.
+Proof.
+  intros d H. unfold adef_ok in H. apply andb_prop in H. destruct H as [H _]. apply andb_prop in H. destruct H; assumption.
+Qed.
+
+Theorem front_ends_agree : forall lf toml d,
+  adef_ok d = true -> agree (lower_dsl (to_dsl lf d)) (lower_manifest lf (to_manifest toml d)).
+Proof.
+  intros lf toml d H. unfold agree.
+  rewrite (dsl_half lf d (adef_ok_objects d H)), (manifest_half lf toml d H). reflexivity.
+Qed.
+
+Lemma agree_unpack : forall {A} (r1 r2 : result A),
+  agree r1 r2 ->
+  (forall a, r1 = ROk a <-> r2 = ROk a) /\
+  (forall e1 e2, r1 = RErr e1 -> r2 = RErr e2 -> err_class e1 = err_class e2).
+Proof.
+  intros A [a|e] [b|e'] H; unfold agree in H; cbn in H; try discriminate; split.
+  - intros x; split; intros Hx; congruence.
+  - intros e1 e2 H1; discriminate.
+  - intros x; split; intros Hx; discriminate.
+  - intros e1 e2 H1 H2. inversion H1; inversion H2; subst. congruence.
+Qed.
+
+(* the classes in which a well-formed definition can be rejected by a front end *)
+Definition front_end_classes : list string := ["missing"; "ref_buffer"; "ref_ref"; "override_forbidden"].
+
+Lemma mapR_err : forall {A B} (f : A -> result B) l e,
+  mapR f l = RErr e -> exists x, In x l /\ f x = RErr e.
+Proof.
+  induction l as [|a t IH]; cbn; intros e H; [discriminate|].
+  destruct (f a) eqn:E; cbn in H.
+  - destruct (mapR f t) eqn:E2; cbn in H; [discriminate|]. inversion H; subst.
+    destruct (IH _ eq_refl) as [x [Hx Hf]]. exists x; auto.
+  - inversion H; subst. exists a; auto.
+Qed.
+
+Lemma spec_object_err_kinds : forall g o e, spec_object g o = RErr e -> In (e_kind e) front_end_classes.
+Proof.
+  intros g. induction o as [h off rep order objs IH|h r|h c|h b|h ov _] using aobject_ind'; intros e H;
+    cbn [spec_object] in H.
+  - destruct (mapR (spec_object g) objs) eqn:E; cbn in H; [discriminate|]. inversion H; subst.
+    destruct (mapR_err _ _ _ E) as [x [Hx Hf]]. rewrite Forall_forall in IH. exact (IH x Hx e Hf).
+  - unfold spec_register in H. destruct (ar_address r), (ar_size_bits r); cbn in H; try discriminate;
+      inversion H; subst; cbn; auto.
+  - unfold spec_command in H. destruct (ak_address c); cbn in H; try discriminate; inversion H; subst; cbn; auto.
+  - unfold spec_buffer in H. destruct (ab_address b); cbn in H; try discriminate; inversion H; subst; cbn; auto.
+  - destruct (spec_override ov) eqn:E; cbn in H; [discriminate|]. inversion H; subst.
+    destruct ov; cbn in E;
+      try (match type of E with (if ?c then _ else _) = _ => destruct c end); try discriminate;
+      inversion E; subst; cbn; auto 6.
+Qed.
+
+Theorem rejection_classes : forall lf toml d e,
+  adef_ok d = true ->
+  (lower_dsl (to_dsl lf d) = RErr e \/ lower_manifest lf (to_manifest toml d) = RErr e) ->
+  In (e_kind (err_class e)) front_end_classes.
+Proof.
+  intros lf toml d e Hok H.
+  assert (Hs : class_of (spec_device lf d) = RErr (err_class e)).
+  { destruct H as [H|H].
+    - rewrite <- (dsl_half lf d (adef_ok_objects d Hok)), H. reflexivity.
+    - rewrite <- (manifest_half lf toml d Hok), H. reflexivity. }
+  unfold spec_device in Hs.
+  destruct (mapR (spec_object (spec_config lf (a_config d))) (a_objects d)) eqn:E; cbn in Hs; [discriminate|].
+  destruct (mapR_err _ _ _ E) as [x [Hx Hf]].
+  pose proof (spec_object_err_kinds _ _ _ Hf) as Hk.
+  cbn in Hs. injection Hs as Hc.
+  assert (Hfix : err_class e0 = e0).
+  { unfold front_end_classes in Hk. destruct e0 as [k args]. cbn in Hk.
+    destruct Hk as [<-|[<-|[<-|[<-|[]]]]]; reflexivity. }
+  rewrite <- Hc, Hfix. exact Hk.
+Qed.
+
+(* either front end's MIR is the meaning of the definition *)
+Theorem front_end_mir_is_spec : forall lf toml d m,
+  adef_ok d = true ->
+  (lower_dsl (to_dsl lf d) = ROk m \/ lower_manifest lf (to_manifest toml d) = ROk m) ->
+  spec_device lf d = ROk m.
+Proof.
+  intros lf toml d m Hok [H|H]; apply class_of_ok.
+  - rewrite <- (dsl_half lf d (adef_ok_objects d Hok)), H. reflexivity.
+  - rewrite <- (manifest_half lf toml d Hok), H. reflexivity.
+Qed.
+
+(* ... and the meaning applies every global default *)
+Theorem spec_applies_defaults : forall lf c g,
+  g = spec_config lf c ->
+  g_default_register_access g = or_default (ac_default_register_access c) RW /\
+  g_default_field_access g = or_default (ac_default_field_access c) RW /\
+  g_default_buffer_access g = or_default (ac_default_buffer_access c) RW /\
+  g_default_bit_order g = or_default (ac_default_bit_order c) BiLSB0 /\
+  g_default_byte_order g = ac_default_byte_order c /\
+  (forall h r reg, spec_register g h r = ROk reg ->
+     rg_access reg = or_default (ar_access r) (g_default_register_access g) /\
+     rg_bit_order reg = or_default (ar_bit_order r) (g_default_bit_order g) /\
+     rg_fields reg = map (spec_field g) (ar_fields r)) /\
+  (forall h k cmd, spec_command g h k = ROk cmd ->
+     cm_bit_order cmd = or_default (ak_bit_order k) (g_default_bit_order g) /\
+     cm_in_fields cmd = map (spec_field g) (or_default (ak_fields_in k) []) /\
+     cm_out_fields cmd = map (spec_field g) (or_default (ak_fields_out k) [])) /\
+  (forall h b buf, spec_buffer g h b = ROk buf ->
+     bf_access buf = or_default (ab_access b) (g_default_buffer_access g)) /\
+  (forall f, f_access (spec_field g f) = or_default (af_access f) (g_default_field_access g)).
+Proof.
+  intros lf c g ->. do 5 (split; [reflexivity|]).
+  split; [|split; [|split]].
+  - intros h r reg H. unfold spec_register in H. destruct (ar_address r), (ar_size_bits r); try discriminate.
+    inversion H. repeat split; reflexivity.
+  - intros h k cmd H. unfold spec_command in H. destruct (ak_address k); try discriminate.
+    inversion H. repeat split; reflexivity.
+  - intros h b buf H. unfold spec_buffer in H. destruct (ab_address b); try discriminate. inversion H. reflexivity.
+  - intros f. reflexivity.
+Qed.
+
+(* the rest of the pipeline is ONE function of the MIR (lib.rs: transform_mir), whatever it is *)
+Definition finish {T} (transform_mir : device -> T) (r : result device) : T + gen_error :=
+  match r with ROk m => inl (transform_mir m) | RErr e => inr (err_class e) end.
+
+Theorem same_decision_and_output : forall (T : Type) (transform_mir : device -> T) lf toml d,
+  adef_ok d = true ->
+  finish transform_mir (lower_dsl (to_dsl lf d)) = finish transform_mir (lower_manifest lf (to_manifest toml d)).
+Proof.
+  intros T tm lf toml d H. pose proof (front_ends_agree lf toml d H) as Ha. unfold agree in Ha.
+  destruct (lower_dsl (to_dsl lf d)), (lower_manifest lf (to_manifest toml d)); cbn in *; congruence.
+Qed.
+
+(* the documented DSL-specific class *)
+Theorem nonbool_single_field : forall toml g f,
+  field_ok f = true -> field_single_nonbool f = true ->
+  dsl_field g (field_to_dsl f) = RErr (mk_err "dsl_nonbool_single" [af_name f]) /\
+  (exists mf, m_field (g_default_field_access g) (field_to_m toml f) = ROk mf /\
+              f_start mf = f_end mf /\ is_bool_base (f_base mf) = false).
+Proof.
+  intros toml g f Hok Hs. split.
+  - destruct f as [c n acc base conv s e incl]. unfold field_single_nonbool in Hs. cbn in Hs.
+    apply andb_prop in Hs. destruct Hs as [He Hb]. destruct e; [discriminate|]. apply negb_true_iff in Hb.
+    unfold field_ok in Hok. cbn in Hok. apply andb_prop in Hok. destruct Hok as [_ Hc].
+    unfold dsl_field, field_to_dsl. cbn [hf_attrs hf_name hf_access hf_base hf_conv hf_addr af_cfg af_name af_access
+                                           af_base af_conv af_start af_end af_incl].
+    rewrite get_cfg_opt. cbn [rbind].
+    assert (Hconv : transpose (option_map dsl_conv (option_map conv_to_dsl conv)) = ROk (option_map spec_conv conv)).
+    { destruct conv as [cv|]; cbn in *; [rewrite (dsl_conv_ok _ Hc)|]; reflexivity. }
+    rewrite Hconv. cbn [rbind dsl_field_address]. rewrite Hb. reflexivity.
+  - exists (spec_field_m (g_default_field_access g) f). split; [apply m_field_ok; assumption|].
+    unfold field_single_nonbool in Hs. apply andb_prop in Hs. destruct Hs as [He Hb].
+    destruct f as [c n acc base conv s e incl]. cbn in *. destruct e; [discriminate|].
+    split; [reflexivity|]. apply negb_true_iff in Hb. exact Hb.
+Qed.
+
+(* first occurrence wins: what find_map does with an item list the PARSER would have refused *)
+Theorem find_map_first_wins : forall {A B} (p : A -> option B) l1 i l2 v,
+  find_map p l1 = None -> p i = Some v -> find_map p (l1 ++ i :: l2) = Some v.
+Proof. intros. rewrite find_map_app, H. cbn. rewrite H0. reflexivity. Qed.
+
+Theorem dsl_duplicate_access_ignored : forall g attrs name items fields a a',
+  find_map pick_r_access items = Some a ->
+  dsl_register g attrs name (items ++ [RIAccess a']) fields = dsl_register g attrs name items fields /\
+  (forall r, dsl_register g attrs name items fields = ROk r -> rg_access r = a).
+Proof.
+  intros g attrs name items fields a a' H. split.
+  - unfold dsl_register. rewrite !find_map_app. cbn [find_map pick_r_access pick_r_byte_order pick_r_bit_order
+      pick_r_allow_bit pick_r_allow_addr pick_r_address pick_r_size pick_r_reset pick_r_repeat].
+    rewrite H.
+    destruct (find_map pick_r_address items), (find_map pick_r_size items), (find_map pick_r_reset items),
+      (find_map pick_r_repeat items), (find_map pick_r_byte_order items), (find_map pick_r_bit_order items),
+      (find_map pick_r_allow_bit items), (find_map pick_r_allow_addr items); reflexivity.
+  - intros r Hr. unfold dsl_register in Hr. rewrite H in Hr.
+    destruct (get_cfg_attr attrs); cbn in Hr; [|discriminate].
+    repeat match type of Hr with
+           | rbind ?x _ = _ => destruct x; cbn [rbind] in Hr; [|discriminate]
+           end.
+    inversion Hr. reflexivity.
+Qed.
+
+(* the behaviour before commit df2c08c differs from the DSL on a definition that sets a default *)
+Definition d5_witness : adef :=
+  {| a_config := {| ac_default_register_access := Some RO; ac_default_field_access := None;
+                    ac_default_buffer_access := None; ac_default_byte_order := None; ac_default_bit_order := None;
+                    ac_register_address_type := Some IU8; ac_command_address_type := None;
+                    ac_buffer_address_type := None; ac_name_word_boundaries := None; ac_defmt_feature := None |};
+     a_objects := [ARegister {| h_cfg := None; h_doc := false; h_name := "Ra" |}
+                             {| ar_access := None; ar_byte_order := None; ar_bit_order := None; ar_address := Some 0;
+                                ar_size_bits := Some 8; ar_reset := None; ar_repeat := None;
+                                ar_allow_bit_overlap := None; ar_allow_address_overlap := None; ar_fields := [];
+                                ar_order := [] |}] |}.
+
+Definition no_lf (_ : string) : list string := [].
+
+Theorem defaults_ignored_would_differ :
+  adef_ok d5_witness = true /\
+  (exists m1 m2, lower_dsl (to_dsl no_lf d5_witness) = ROk m1 /\
+                 lower_manifest_nodefaults no_lf (to_manifest false d5_witness) = ROk m2 /\ m1 <> m2) /\
+  lower_manifest no_lf (to_manifest false d5_witness) = lower_dsl (to_dsl no_lf d5_witness).
+Proof.
+  split; [reflexivity|]. split.
+  - eexists. eexists. split; [vm_compute; reflexivity|]. split; [vm_compute; reflexivity|]. discriminate.
+  - vm_compute. reflexivity.
+Qed.
